@@ -89,6 +89,10 @@ package composite
 //@ func composite.ExtractConnectionDetails
 //@ props C09
 //@ frame fresh-only
+//@ site builtin.mapupdate($mp, $k, $v) as write-detail
+//@   where $mp == out
+//@   assert [C09:detail-stored-under-its-configured-name] $k == cfg.Name
+//@   assert [C09:secret-key-detail-comes-from-the-configured-key] cfg.Type == "FromConnectionSecretKey" ==> (cfg.FromConnectionSecretKey != nil && $v == data[*cfg.FromConnectionSecretKey])
 //@ loop range cfg
 //@   invariant [C09:keys-are-config-names] forall k:Str :: k in out ==> (exists j :: 0 <= j && j < done && old(cfg)[j].Name == k)
 //@   invariant [C09:configs-so-far-valid] forall j :: 0 <= j && j < done ==> (old(cfg)[j].Name != ""
@@ -243,6 +247,63 @@ package composite
 //@ props C10
 //@ sweep
 
+// The convert transform's conversion table (function literals of the package initialiser, in
+// source order): a successful conversion yields a value of the Go type that stands for the
+// target IO type (string, int64, bool, float64), which is what the next conversion in a chain
+// and the other transforms assert; the bool and integer conversions are the documented ones.
+//@ func composite.init$1
+//@ props C10
+//@ sweep
+//@ ensures [C10:string-to-int64-yields-int64] err == nil ==> typeis(result, int64)
+//@ func composite.init$2
+//@ props C10
+//@ sweep
+//@ ensures [C10:string-to-bool-yields-bool] err == nil ==> typeis(result, bool)
+//@ func composite.init$3
+//@ props C10
+//@ sweep
+//@ ensures [C10:string-to-float64-yields-float64] err == nil ==> typeis(result, float64)
+//@ func composite.init$4
+//@ props C10
+//@ sweep
+//@ ensures [C10:quantity-to-float64-yields-float64] err == nil ==> typeis(result, float64)
+//@ func composite.init$5
+//@ props C10
+//@ sweep
+//@ ensures [C10:int64-to-string-yields-string] err == nil ==> typeis(result, string) && typeis(i, int64)
+//@ func composite.init$6
+//@ props C10
+//@ sweep
+//@ ensures [C10:int64-to-bool-is-equals-one] err == nil ==> typeis(result, bool) && typeis(i, int64) && (as(result, bool) <==> as(i, int64) == 1)
+//@ func composite.init$7
+//@ props C10
+//@ sweep
+//@ ensures [C10:int64-to-float64-yields-float64] err == nil ==> typeis(result, float64) && typeis(i, int64)
+//@ func composite.init$8
+//@ props C10
+//@ sweep
+//@ ensures [C10:bool-to-string-yields-string] err == nil ==> typeis(result, string) && typeis(i, bool)
+//@ func composite.init$9
+//@ props C10
+//@ sweep
+//@ ensures [C10:bool-to-int64-is-one-or-zero] err == nil ==> typeis(result, int64) && typeis(i, bool) && as(result, int64) == ite(as(i, bool), 1, 0)
+//@ func composite.init$10
+//@ props C10
+//@ sweep
+//@ ensures [C10:bool-to-float64-yields-float64] err == nil ==> typeis(result, float64) && typeis(i, bool)
+//@ func composite.init$11
+//@ props C10
+//@ sweep
+//@ ensures [C10:float64-to-string-yields-string] err == nil ==> typeis(result, string) && typeis(i, float64)
+//@ func composite.init$12
+//@ props C10
+//@ sweep
+//@ ensures [C10:float64-to-int64-yields-int64] err == nil ==> typeis(result, int64) && typeis(i, float64)
+//@ func composite.init$13
+//@ props C10
+//@ sweep
+//@ ensures [C10:float64-to-bool-yields-bool] err == nil ==> typeis(result, bool) && typeis(i, float64)
+
 //@ func composite.GetConversionFunc
 //@ props C10
 //@ requires [C10:transform-given] t != nil
@@ -285,6 +346,15 @@ package composite
 //@ func composite.ApplyCombineFromVariablesPatch
 //@ props C10
 //@ sweep
+//@ ghost missing bool = false
+//@ site (*fieldpath.Paved).GetValue(_, _)
+//@   update missing = missing || fieldpath.IsNotFound(err)
+//@ loop range p.Combine.Variables
+//@   invariant [C10:no-missing-variable-so-far] !missing
+//@ optional site composite.patchFieldValueToObject(_, _, $to, _)
+//@   assert [C10:no-combine-when-a-variable-is-missing] !missing && $to == to
+//@ ensures [C10:optional-missing-variable-is-skipped] (missing && (p.Policy == nil || p.Policy.FromFieldPath == nil || *p.Policy.FromFieldPath == "Optional")) ==> err == nil
+//@ ensures [C10:required-missing-variable-is-an-error] (missing && !(p.Policy == nil || p.Policy.FromFieldPath == nil || *p.Policy.FromFieldPath == "Optional")) ==> err != nil
 
 //@ func composite.IsOptionalFieldPathNotFound
 //@ props C10
